@@ -134,6 +134,7 @@ impl Point {
     /// If the source length is exactly 32 bytes, then the decoding
     /// outcome (success or failure) should remain hidden from
     /// timing-based side channels.
+    #[cfg_attr(pornin_crrl_verif_cut, inline(never))]
     pub fn set_decode(&mut self, buf: &[u8]) -> u32 {
         // Check that the input length is correct.
         if buf.len() != 32 {
@@ -181,6 +182,7 @@ impl Point {
     /// Encodes this point into exactly 32 bytes.
     ///
     /// Encoding is always canonical.
+    #[cfg_attr(pornin_crrl_verif_cut, inline(never))]
     pub fn encode(self) -> [u8; 32] {
         // - Choose the element representant whose e coordinate is
         //   non-negative.
@@ -681,6 +683,7 @@ impl Point {
     ///
     /// This operation is constant-time with regard to both the points
     /// and the scalar value.
+    #[cfg_attr(pornin_crrl_verif_cut, inline(never))]
     pub fn set_mul(&mut self, n: &Scalar) {
         // Make a 5-bit window: win[i] contains (i+1)*P
         let mut win = [Self::NEUTRAL; 16];
@@ -738,6 +741,7 @@ impl Point {
     ///
     /// This operation is constant-time. It is faster than using the
     /// generic multiplication on `Self::BASE`.
+    #[cfg_attr(pornin_crrl_verif_cut, inline(never))]
     pub fn set_mulgen(&mut self, n: &Scalar) {
         // Recode the scalar into 51 signed digits.
         let sd = Self::recode_scalar(n);
@@ -844,6 +848,7 @@ impl Point {
     ///
     /// THIS FUNCTION IS NOT CONSTANT-TIME; it shall be used only with
     /// public data.
+    #[cfg_attr(pornin_crrl_verif_cut, inline(never))]
     pub fn set_mul_add_mulgen_vartime(&mut self, u: &Scalar, v: &Scalar) {
         // Recode the scalars in 5-bit wNAF.
         let sdu = Self::recode_scalar_NAF(&u);
@@ -929,6 +934,7 @@ impl Point {
     ///
     /// THIS FUNCTION IS NOT CONSTANT-TIME; it shall be used only with
     /// public data.
+    #[cfg_attr(pornin_crrl_verif_cut, inline(never))]
     pub fn set_mul128_add_mulgen_vartime(&mut self, u: u128, v: &Scalar) {
         // Recode the integer and scalar in 5-bit wNAF.
         let sdu = Self::recode_u128_NAF(u);
@@ -1615,6 +1621,7 @@ impl PublicKey {
 /// are provided. Use an empty string for `hash_name` if the `data`
 /// is raw (unhashed). This function is used for both signature generation
 /// and signature verification.
+#[cfg_attr(pornin_crrl_verif_cut, inline(never))]
 fn make_challenge(R: &Point, enc_pk: &[u8; 32], hash_name: &str, data: &[u8])
     -> [u8; 16]
 {
